@@ -9,12 +9,12 @@ git checkout -q -- . ; git clean -fdq
 git apply $M/patch.diff || { echo "APPLY FAILED"; exit 3; }
 DEMO=$(ls $M/*_test.go | head -1)
 cp $DEMO $PKG/zzdemo${K}_test.go
-go test -vet=off -count=1 -run "$RUN" ./$PKG/ > /tmp/confirm-$ID-$K-with.txt 2>&1; with=$?
+go test $RACE -vet=off -count=1 -run "$RUN" ./$PKG/ > /tmp/confirm-$ID-$K-with.txt 2>&1; with=$?
 rm -f $PKG/zzdemo${K}_test.go
 go test -vet=off -count=1 -run "$EX" ./$PKG/ > /tmp/confirm-$ID-$K-existing.txt 2>&1; ex=$?
 git checkout -q -- .
 cp $DEMO $PKG/zzdemo${K}_test.go
-go test -vet=off -count=1 -run "$RUN" ./$PKG/ > /tmp/confirm-$ID-$K-without.txt 2>&1; without=$?
+go test $RACE -vet=off -count=1 -run "$RUN" ./$PKG/ > /tmp/confirm-$ID-$K-without.txt 2>&1; without=$?
 rm -f $PKG/zzdemo${K}_test.go
 git checkout -q -- . ; git clean -fdq
 echo "confirm $ID/$K: demo with patch exit=$with (want !=0), existing tests with patch exit=$ex (want 0), demo without patch exit=$without (want 0)"
